@@ -51,3 +51,22 @@ package clause
 //@   ensures stays-where: is(clause.Expression, Where)
 //@   ensures concatenates: is(o, Where) ==> len(clause.Expression.(Where).Exprs) == len(o.(Where).Exprs) + len(where.Exprs)
 //@   ensures first: !is(o, Where) ==> clause.Expression.(Where) == where
+
+//@ # ---------- C02: condition constructors (K1) ----------
+//@ func And
+//@   tags C02
+//@   modifies nothing
+//@   ensures empty-is-no-condition: len(exprs) == 0 ==> result == nil
+//@   ensures single-unit-stays-itself: len(exprs) == 1 && !is(exprs[0], OrConditions) ==> result == exprs[0]
+//@   ensures group: len(exprs) > 1 || (len(exprs) == 1 && is(exprs[0], OrConditions)) ==> is(result, AndConditions) && result.(AndConditions).Exprs == exprs
+//@ func Or
+//@   tags C02
+//@   modifies nothing
+//@   ensures empty-is-no-condition: len(exprs) == 0 ==> result == nil
+//@   ensures group: len(exprs) > 0 ==> is(result, OrConditions) && result.(OrConditions).Exprs == exprs
+//@ func Not
+//@   tags C02
+//@   modifies nothing
+//@   ensures empty-is-no-condition: len(exprs) == 0 ==> result == nil
+//@   ensures and-group-is-negated-memberwise: len(exprs) == 1 && is(exprs[0], AndConditions) ==> is(result, NotConditions) && result.(NotConditions).Exprs == exprs[0].(AndConditions).Exprs
+//@   ensures otherwise-negates-the-units: len(exprs) > 1 || (len(exprs) == 1 && !is(exprs[0], AndConditions)) ==> is(result, NotConditions) && result.(NotConditions).Exprs == exprs
